@@ -108,6 +108,24 @@ def plain_programs(report):
         report.absorb(part)
     for part in env.pmap(_nest_shard, [(i, n, not quick) for i in range(n)]):
         report.absorb(part)
+    # host dimension of the interaction sweep: a seeded stride under the other host interpreters
+    from .. import hosts
+    from ..gen import nest
+    others = hosts.available_other_hosts()
+    if others:
+        ncases = list(nest.triples()) + list(nest.item_pairs()) + list(nest.deep())
+        stride = 29 if quick else 5
+        hcases = []
+        for k in range(report.seed % stride, len(ncases), stride):
+            src = nest.build(*ncases[k])
+            if src is not None:
+                hcases.append((src, [env.ALL_CFGS[k % 8]]))
+        per_host = max(1, env.NPROC // len(others))
+        hitems = [(h, hcases[j::per_host], {}, "[interaction] program behaves differently after conversion")
+                  for h in others for j in range(per_host)]
+        for part in env.pmap(hosts.host_shard, hitems):
+            report.absorb(part)
+        report.extra["interaction_programs_per_other_host"] = len(hcases)
 
 
 def specialised_domains(report):
